@@ -192,3 +192,7 @@ func SharedMap(m any) {}
 // symbolic number (which the engine does not encode) ends benignly instead of being counted
 // inconclusive. Used only where the remaining obligation is "no Go panic".
 func SoftOpaque(on bool) {}
+
+// Cost is the number of SSA instructions the engine has executed on the current path (0 natively):
+// an exact, deterministic cost meter for "time bounded by a modest function of the input length".
+func Cost() int { return 0 }
